@@ -5,6 +5,11 @@ running the exact probe components of `vcheck/wholekit.py`. The complete state t
 compared cell by cell after the initial creation and after every time step; a raising run is compared by the
 stage at which it raised and the class of the exception.
 
+Opt-in parts of the configuration (see `vcheck/wholekit.py`): an `age` column, a lookup table + value pipeline for the
+mortality probability (compared: the value per asked simulant), an observer with stratifications and adding observations
+(compared: `get_results()` after every step), a DateTimeClock with per-simulant step modifiers (`Model/WholeDt.lean`;
+compared: the clock columns of every simulant and the global step).
+
 Not one of the 20 listed properties: an additional correspondence target (cited by C01 / C04 / C02 reports).
 """
 from __future__ import annotations
@@ -279,8 +284,8 @@ def ext_boundary():
 
 class Whole(Prop):
     id = "WHOLE"
-    lean_modules = ["VivModel.Props.Whole"]
-    build_targets = ["VivModel.Model.Whole", "VivModel.Model.Proto"]
+    lean_modules = ["VivModel.Props.Whole", "VivModel.Props.WholeDt"]
+    build_targets = ["VivModel.Model.Whole", "VivModel.Model.WholeDt", "VivModel.Model.Proto"]
     driver = "Whole"
     technique = ("Lean 4 executable end-to-end model composed from the sub-models (SHA-1, MT19937, index map, streams, "
                  "state machine, events, clock) + theorems about the composition (run = iterated step, resume at any "
@@ -289,9 +294,10 @@ class Whole(Prop):
                  "stratified results of a whole run = sum over its observation events, each adding the aggregate over the simulants "
                  "eligible at that moment, by composing the C16 model) + exact cell-by-cell correspondence (state table, index-map "
                  "positions, pipeline value per asked simulant, results) with real SimulationContext runs after every step")
-    partial = ("the model covers the probe components of vcheck/wholekit.py (every value exact in binary64) under a SimpleClock; "
-               "DateTimeClock, per-simulant clocks and rescale_post_processor are tied by C08/C10/C14, not here; one pipeline (the "
-               "mortality probability, source = one lookup table) and adding observations only; "
+    partial = ("the model covers the probe components of vcheck/wholekit.py (every value exact in binary64) under a SimpleClock and, "
+               "opt-in, under a DateTimeClock in whole hours of January 2021 with per-simulant step modifiers (Model/WholeDt.lean, "
+               "composing the C10 clock model; no observer there); move_simulants_to_end and rescale_post_processor are tied by "
+               "C10/C14, not here; one pipeline (the mortality probability, source = one lookup table) and adding observations only; "
                "termination of the index map's collision loop is a hypothesis (fuel), sizes with few reachable positions are not generated")
     trusted_extra = ["vcheck/wholekit.py: every float the probe components compute is exact (powers of two, sixteenths, integers)"]
     n_quick = 56
@@ -300,7 +306,7 @@ class Whole(Prop):
     case_timeout = 90
     rule = ("case = one configuration (seed, population 0-12, map size, clock, key columns, births per step and channel, "
             "priorities, component order, mortality table, machine; opt-in: age column, lookup table + value pipeline with 0-3 "
-            "modifiers, observer with stratifications and observations); run for real step by step, through run(), and with another "
+            "modifiers, observer with stratifications and observations, DateTimeClock with per-simulant step modifiers); run for real step by step, through run(), and with another "
             "births schedule; non-trivial = at least one completed step with simulants, or a refusal that the model predicts")
 
     # ------------------------------------------------------------------ generation
